@@ -9,13 +9,13 @@ use serde::de::DeserializeOwned;
 use serde::Serialize;
 use serde_json::json;
 
-#[derive(Clone, Debug, PartialEq, Eq)]
+#[derive(Clone, Debug, PartialEq, Eq, Serialize, serde::Deserialize)]
 pub struct Violation {
     pub class: String,
     pub detail: String,
 }
 
-#[derive(Default)]
+#[derive(Default, Serialize, serde::Deserialize)]
 pub struct Outcome {
     /// deterministic event log of the run (what happened, digests of outputs)
     pub log: Vec<String>,
@@ -101,8 +101,79 @@ pub fn execute_guarded<E: Engine>(trace: &E::Trace) -> Outcome {
     }
 }
 
+// ---------------------------------------------------------------------------------------
+// Process isolation: every run executes in a forked child of the worker, so that a run's
+// result is a function of its trace alone — hidden process-wide state in the system under
+// test (a static counter, a cache) cannot leak from one run into the next, and a violation
+// found in a batch replays identically in a fresh process.
+// ---------------------------------------------------------------------------------------
+
+extern "C" {
+    fn fork() -> i32;
+    fn pipe(fds: *mut i32) -> i32;
+    fn waitpid(pid: i32, status: *mut i32, options: i32) -> i32;
+    fn _exit(code: i32) -> !;
+}
+
+/// Called in the child before a run starts (e.g. to reseed the system-call seam).
+pub type ChildInit = fn(u64);
+
+pub fn execute_isolated<E: Engine>(trace: &E::Trace, run_seed: u64, init: Option<ChildInit>) -> Outcome {
+    use std::io::{Read, Write};
+    use std::os::fd::FromRawFd;
+    let mut fds = [0i32; 2];
+    if unsafe { pipe(fds.as_mut_ptr()) } != 0 {
+        panic!("pipe failed");
+    }
+    std::io::stdout().flush().ok();
+    let pid = unsafe { fork() };
+    if pid < 0 {
+        panic!("fork failed");
+    }
+    if pid == 0 {
+        // child
+        let mut w = unsafe { std::fs::File::from_raw_fd(fds[1]) };
+        drop(unsafe { std::fs::File::from_raw_fd(fds[0]) });
+        if let Some(f) = init {
+            f(run_seed);
+        }
+        let o = execute_guarded::<E>(trace);
+        let bytes = serde_json::to_vec(&o).unwrap_or_default();
+        let _ = w.write_all(&bytes);
+        let _ = w.flush();
+        drop(w);
+        unsafe { _exit(0) }
+    }
+    drop(unsafe { std::fs::File::from_raw_fd(fds[1]) });
+    let mut r = unsafe { std::fs::File::from_raw_fd(fds[0]) };
+    let mut buf = Vec::new();
+    let _ = r.read_to_end(&mut buf);
+    let mut status = 0i32;
+    unsafe { waitpid(pid, &mut status, 0) };
+    match serde_json::from_slice::<Outcome>(&buf) {
+        Ok(o) => o,
+        Err(_) => {
+            // the child died without reporting: abort, stack overflow, kill
+            let mut o = Outcome::default();
+            o.violate("process-died", format!("the run's process ended abnormally (wait status {status:#x}) without reporting"));
+            o
+        }
+    }
+}
+
+fn run_one<E: Engine>(trace: &E::Trace, run_seed: u64, isolate: bool, init: Option<ChildInit>) -> Outcome {
+    if isolate {
+        execute_isolated::<E>(trace, run_seed, init)
+    } else {
+        if let Some(f) = init {
+            f(run_seed);
+        }
+        execute_guarded::<E>(trace)
+    }
+}
+
 pub fn trace_hash<T: Serialize>(t: &T) -> String {
-    simcore::sha256::short(serde_json::to_string(t).unwrap().as_bytes())
+    crate::sha256::short(serde_json::to_string(t).unwrap().as_bytes())
 }
 
 pub fn log_hash(o: &Outcome) -> String {
@@ -110,7 +181,7 @@ pub fn log_hash(o: &Outcome) -> String {
     if let Some(v) = &o.violation {
         s.push_str(&format!("\nVIOLATION {} {}", v.class, v.detail));
     }
-    simcore::sha256::short(s.as_bytes())
+    crate::sha256::short(s.as_bytes())
 }
 
 pub struct WorkerArgs {
@@ -123,6 +194,9 @@ pub struct WorkerArgs {
     pub mode: String,
     pub max_samples: usize,
     pub stop_on_violation: bool,
+    /// fork one child per run
+    pub isolate: bool,
+    pub child_init: Option<ChildInit>,
 }
 
 /// Worker loop: runs indices from..to with i % stride == offset, prints JSONL.
@@ -137,9 +211,9 @@ pub fn worker<E: Engine>(a: &WorkerArgs) {
     let mut i = a.from + ((a.offset + a.stride - a.from % a.stride) % a.stride);
     while i < a.to {
         let engine_tag = format!("{}/{}", E::NAME, a.mode);
-        let rs = simcore::prng::run_seed(a.verif_seed, &engine_tag, i);
+        let rs = crate::prng::run_seed(a.verif_seed, &engine_tag, i);
         let trace = E::generate(rs, i, a.tier, &a.mode);
-        let o = execute_guarded::<E>(&trace);
+        let o = run_one::<E>(&trace, rs, a.isolate, a.child_init);
         runs += 1;
         for (k, v) in &o.counters {
             *counters.entry(k.clone()).or_insert(0) += v;
@@ -173,12 +247,13 @@ pub fn worker<E: Engine>(a: &WorkerArgs) {
 }
 
 /// Executes a trace file; prints the outcome; returns process exit code.
-pub fn exec_file<E: Engine>(path: &str, verbose: bool) -> i32 {
+pub fn exec_file<E: Engine>(path: &str, verbose: bool, init: Option<ChildInit>) -> i32 {
     let text = std::fs::read_to_string(path).expect("read trace");
     let v: serde_json::Value = serde_json::from_str(&text).expect("trace json");
     let tv = if v.get("trace").is_some() { v["trace"].clone() } else { v.clone() };
     let trace: E::Trace = serde_json::from_value(tv).expect("trace shape");
-    let o = execute_guarded::<E>(&trace);
+    let rs = v.get("run_seed").and_then(|s| s.as_str()).and_then(|s| u64::from_str_radix(s, 16).ok()).unwrap_or(0);
+    let o = run_one::<E>(&trace, rs, true, init);
     if verbose {
         for l in &o.log {
             println!("  {}", l);
@@ -197,12 +272,13 @@ pub fn exec_file<E: Engine>(path: &str, verbose: bool) -> i32 {
 }
 
 /// Greedy delta debugging: keep any one-step reduction that preserves the violation class.
-pub fn minimize_file<E: Engine>(path: &str, out_path: &str, budget_s: u64) -> i32 {
+pub fn minimize_file<E: Engine>(path: &str, out_path: &str, budget_s: u64, isolate: bool, init: Option<ChildInit>) -> i32 {
     let text = std::fs::read_to_string(path).expect("read trace");
     let v: serde_json::Value = serde_json::from_str(&text).expect("trace json");
     let tv = if v.get("trace").is_some() { v["trace"].clone() } else { v.clone() };
     let mut cur: E::Trace = serde_json::from_value(tv).expect("trace shape");
-    let o = execute_guarded::<E>(&cur);
+    let rs = v.get("run_seed").and_then(|s| s.as_str()).and_then(|s| u64::from_str_radix(s, 16).ok()).unwrap_or(0);
+    let o = run_one::<E>(&cur, rs, isolate, init);
     let Some(v0) = o.violation.clone() else {
         eprintln!("minimize: trace does not violate");
         return 2;
@@ -220,7 +296,7 @@ pub fn minimize_file<E: Engine>(path: &str, out_path: &str, budget_s: u64) -> i3
                 break 'outer;
             }
             tried += 1;
-            let oc = execute_guarded::<E>(&cand);
+            let oc = run_one::<E>(&cand, rs, isolate, init);
             if let Some(vc) = &oc.violation {
                 if vc.class == v0.class {
                     cur = cand;
@@ -236,6 +312,7 @@ pub fn minimize_file<E: Engine>(path: &str, out_path: &str, budget_s: u64) -> i3
         "engine": E::NAME,
         "violation": {"class": last.class, "detail": last.detail},
         "minimised": {"accepted_steps": steps, "candidates_tried": tried},
+        "run_seed": format!("{:016x}", rs),
         "trace": serde_json::to_value(&cur).unwrap(),
     });
     std::fs::write(out_path, serde_json::to_string_pretty(&doc).unwrap()).expect("write minimised");
